@@ -138,7 +138,8 @@ class SymBytes:
         return self
 
     def __sx_bytearray__(self):
-        return self
+        from . import cryptomodel
+        return cryptomodel.SxByteArray(self.items())
 
     def __sx_memoryview__(self):
         return SymView(self)
